@@ -118,14 +118,13 @@ def run(chk: Check) -> None:
         return mod.assigns[name]
 
     def dict_items(e: ast.expr, mod):
-        if not isinstance(e, ast.Dict):
-            raise AnalysisError(f"table in {mod.name} is no longer a dict literal: {norm(e)[:40]}")
-        out = {}
-        for k, v in zip(e.keys, e.values):
-            if not isinstance(k, ast.Constant):
-                raise AnalysisError("non-literal key in operator table")
-            out[k.value] = v
-        return out
+        if isinstance(e, ast.Dict) and all(isinstance(k, ast.Constant) for k in e.keys):
+            return {k.value: v for k, v in zip(e.keys, e.values)}
+        # computed table (dict(zip(..)), comprehension, ** merge): constant-propagate it
+        val = ix.const_eval(mod, e)
+        if not isinstance(val, dict):
+            raise AnalysisError(f"table in {mod.name} does not evaluate to a dict: {norm(e)[:40]}")
+        return {k: (v if isinstance(v, ast.AST) else ast.Constant(value=v)) for k, v in val.items()}
 
     def cmp_table(modname, name, spec, conv=lambda v: v.value if isinstance(v, ast.Constant) else norm(v), partial=True):
         mod = ix.module(modname)
